@@ -1340,6 +1340,50 @@ func c12(c *core.Ctx, r *core.Report) {
 					}
 				}
 			}
+			// … or at the end of every cycle: a store of 0 whose only guard is "the step counter has reached 0", tested on
+			// every path to a return after the counter was decremented (behind an early return it would be skipped)
+			if !accReset {
+				an.Instrs(fn, func(in ssa.Instruction) {
+					st, ok := in.(*ssa.Store)
+					if !ok || an.D().Of(st.Val) != "0" {
+						return
+					}
+					k, isCell := cellAt(fn, st.Addr)
+					if !isCell {
+						return
+					}
+					if b, isB := k.elem().Underlying().(*types.Basic); !isB || b.Info()&types.IsFloat == 0 {
+						return
+					}
+					gs := an.GuardsOf(st.Block())
+					if len(gs) != 1 || !gs[0].Polarity {
+						return
+					}
+					bo, isBin := an.Strip(gs[0].Cond).(*ssa.BinOp)
+					if !isBin || bo.Op != token.EQL {
+						return
+					}
+					kz, isK := bo.Y.(*ssa.Const)
+					if !isK || kz.Value == nil || kz.Int64() != 0 || !(steps.loadOf(an.Strip(bo.X)) || steps.loadOf(bo.X)) {
+						return
+					}
+					onEveryPath := true
+					for _, ret := range an.Returns(fn) {
+						if !an.Dominates(gs[0].If, ret) {
+							onEveryPath = false
+						}
+					}
+					afterDecrement := false
+					for _, ds := range steps.stores(fn) {
+						if ds.Block() != ev.Block() && an.Dominates(ds, gs[0].If) {
+							afterDecrement = true
+						}
+					}
+					if onEveryPath && afterDecrement {
+						accReset = true
+					}
+				})
+			}
 			// float accumulators must be cleared at cycle start
 			for _, k := range cellsOf(fn) {
 				if b, isB := k.elem().Underlying().(*types.Basic); isB && b.Info()&types.IsFloat != 0 {
